@@ -1054,3 +1054,323 @@ func linIndexInto(w *World, ia *ssa.IndexAddr, suffix string) (*linSum, bool) {
 	}
 	return out, false
 }
+
+// ---------------------------------------------------------------------------
+// VOLCONS: a volume file's blocks are used only if its main packet describes this set
+
+const ruleVOLCONSText = "a recovery volume is accepted only if it describes this set: in (*par2.Decoder).LoadParityData every path on which a parsed volume file is handed on (a non-nil *file returned with a nil error) has passed (1) the comparison of the volume's main-packet slice size with the decoder's, (2) reflect.DeepEqual of the decoder's recovery set ids with the volume's main-packet recovery set and (3) the same for the non-recovery set - the packet checksum covers the set id field but nothing ties that field to the main packet's body, so a well-checksummed volume can carry the index's set id and another set's description; its blocks would be counted as usable and fed to the coder"
+
+func ruleVOLCONS(w *World, r *Report) {
+	r.rule("VOLCONS", ruleVOLCONSText)
+	fn := w.Fn("(*par2.Decoder).LoadParityData")
+	if fn == nil {
+		r.unk("VOLCONS", "LoadParityData", "", "(*par2.Decoder).LoadParityData not found")
+		return
+	}
+	mentions := func(v ssa.Value, suffix string) bool {
+		found := false
+		var walk func(v ssa.Value, depth int)
+		walk = func(v ssa.Value, depth int) {
+			if found || depth > 3 {
+				return
+			}
+			backSlice(resolveSingle(v), func(x ssa.Value) bool {
+				if found {
+					return false
+				}
+				if strings.HasSuffix(chainPath(x, 0), suffix) {
+					found = true
+					return false
+				}
+				if y := resolveSingle(x); y != x {
+					walk(y, depth+1)
+				}
+				return !found
+			})
+		}
+		walk(v, 0)
+		return found
+	}
+	n := 0
+	for _, f := range region(fn) {
+		for _, b := range f.Blocks {
+			ret, ok := b.Instrs[len(b.Instrs)-1].(*ssa.Return)
+			if !ok || len(ret.Results) != 2 || !isNilConst(ret.Results[1]) || !isErrorType(ret.Results[1].Type()) {
+				continue
+			}
+			if typeStr(ret.Results[0].Type()) != "*par2.file" && !strings.HasSuffix(typeStr(ret.Results[0].Type()), "*file") {
+				continue
+			}
+			if isNilConst(ret.Results[0]) {
+				continue
+			}
+			n++
+			key := fmt.Sprintf("%s:accept#%d", shortName(f), n-1)
+			size, rs, nrs := false, false, false
+			for _, cm := range w.factsAt(ret) {
+				if cm.Op == token.EQL && cm.Y != nil {
+					px, py := chainPath(w.up(cm.X), 0), chainPath(w.up(cm.Y), 0)
+					if strings.HasSuffix(px, "sliceByteCount") && strings.HasSuffix(py, "sliceByteCount") && (strings.Contains(px, "mainPacket") != strings.Contains(py, "mainPacket")) {
+						size = true
+					}
+				}
+				if cm.Op == token.NEQ && cm.Y == nil {
+					de, ok := stripAllConv(cm.X).(*ssa.Call)
+					if !ok || calleeName(&de.Call) != "reflect.DeepEqual" || len(de.Call.Args) != 2 {
+						continue
+					}
+					a0, a1 := de.Call.Args[0], de.Call.Args[1]
+					both := func(suffix string) bool {
+						return (mentions(a0, ".mainPacket"+suffix) && mentions(a1, suffix) && !mentions(a1, ".mainPacket"+suffix)) ||
+							(mentions(a1, ".mainPacket"+suffix) && mentions(a0, suffix) && !mentions(a0, ".mainPacket"+suffix))
+					}
+					if both(".recoverySet") {
+						rs = true
+					}
+					if both(".nonRecoverySet") {
+						nrs = true
+					}
+				}
+			}
+			var missing []string
+			if !size {
+				missing = append(missing, "slice size")
+			}
+			if !rs {
+				missing = append(missing, "recovery set")
+			}
+			if !nrs {
+				missing = append(missing, "non-recovery set")
+			}
+			if len(missing) == 0 {
+				r.ok("VOLCONS", key, w.ipos(ret), "the volume is handed on only after slice size, recovery set and non-recovery set matched the index file's")
+			} else {
+				r.bad("VOLCONS", key, w.ipos(ret), "a volume file is accepted without comparing its main packet's "+strings.Join(missing, ", ")+" with the index file's: blocks computed for another set are counted as usable and used for reconstruction")
+			}
+		}
+	}
+	r.floor("VOLCONS", "volume acceptances in LoadParityData", n, 1)
+}
+
+// chainPath spells a value as the chain of field selections that reads it, through pointer
+// loads: <root>.mainPacket.sliceByteCount. Elements of slices and arrays are written [*].
+func chainPath(v ssa.Value, depth int) string {
+	if depth > 8 {
+		return "?"
+	}
+	v = stripAllConv(v)
+	switch x := v.(type) {
+	case *ssa.UnOp:
+		if x.Op == token.MUL {
+			return chainPath(x.X, depth+1)
+		}
+	case *ssa.FieldAddr:
+		return chainPath(x.X, depth+1) + "." + fieldName(x.X.Type(), x.Field)
+	case *ssa.Field:
+		return chainPath(x.X, depth+1) + "." + fieldName(x.X.Type(), x.Field)
+	case *ssa.IndexAddr:
+		return chainPath(x.X, depth+1) + "[*]"
+	case *ssa.Alloc:
+		return "<" + x.Comment + ">"
+	case *ssa.Parameter:
+		return "<" + x.Name() + ">"
+	case *ssa.FreeVar:
+		return "<" + x.Name() + ">"
+	}
+	return "<" + v.Name() + ">"
+}
+
+// ---------------------------------------------------------------------------
+// ALLINPUTS: every file named to Create reaches the encoder
+
+const ruleALLINPUTSText = "every input file is protected: in par1.create and par2.create the list of paths handed to the encoder's constructor is the caller's list itself, a slice made with len(list) elements, or a slice to which every iteration of a loop over the list appends (the append dominates every back-edge of that loop) - a filter on the way silently leaves files out of the set, and verify and repair then report a clean bill for files that were never protected"
+
+func ruleALLINPUTS(w *World, r *Report, pkgs ...string) {
+	r.rule("ALLINPUTS", ruleALLINPUTSText)
+	n := 0
+	for _, pk := range pkgs {
+		fn := w.Fn(pk + ".create")
+		if fn == nil || len(fn.Params) < 3 || typeStr(fn.Params[2].Type()) != "[]string" {
+			r.unk("ALLINPUTS", pk+".create", "", "create(fileIO, parPath, filePaths []string, ...) not found")
+			continue
+		}
+		P := ssa.Value(fn.Params[2])
+		for _, f := range region(fn) {
+			for _, c := range callInstrs(f) {
+				if staticCalleeShort(c.Common()) != pk+".newEncoder" {
+					continue
+				}
+				for _, a := range c.Common().Args {
+					if typeStr(a.Type()) != "[]string" {
+						continue
+					}
+					n++
+					key := fmt.Sprintf("%s.create:inputs#%d", pk, n-1)
+					isP := func(v ssa.Value) bool {
+						v = stripAllConv(v)
+						if v == P {
+							return true
+						}
+						for i := 0; i < 4; i++ {
+							u := w.up(v)
+							if u == nil || u == v {
+								break
+							}
+							v = stripAllConv(u)
+							if v == P {
+								return true
+							}
+						}
+						return false
+					}
+					A := stripAllConv(a)
+					for i := 0; i < 4 && !isP(A); i++ {
+						u := w.up(A)
+						if u == nil || u == A {
+							break
+						}
+						if pp, ok := A.(*ssa.Parameter); ok && pp.Parent() == fn {
+							break // do not leave create itself
+						}
+						A = stripAllConv(u)
+					}
+					if isP(A) {
+						r.ok("ALLINPUTS", key, w.ipos(c), "the caller's list is handed on unchanged")
+						continue
+					}
+					if mk, ok := A.(*ssa.MakeSlice); ok {
+						ln := isBuiltinCall(stripAllConv(mk.Len), "len")
+						if ln != nil && isP(ln.Call.Args[0]) {
+							r.ok("ALLINPUTS", key, w.ipos(c), "a slice with one element per input path")
+						} else {
+							r.bad("ALLINPUTS", key, w.ipos(c), "the list handed to the encoder is not made with one element per input path")
+						}
+						continue
+					}
+					// built by appends
+					var apps []*ssa.Call
+					backSlice(A, func(v ssa.Value) bool {
+						if ap := isBuiltinCall(v, "append"); ap != nil {
+							apps = append(apps, ap)
+						}
+						return true
+					})
+					if len(apps) == 0 {
+						r.unk("ALLINPUTS", key, w.ipos(c), "origin of the path list not recognised")
+						continue
+					}
+					bad := ""
+					for _, ap := range apps {
+						g := ap.Parent()
+						l := innermostLoop(naturalLoops(g), ap.Block())
+						if l == nil {
+							continue
+						}
+						for _, p := range l.head.Preds {
+							if l.body[p] && !ap.Block().Dominates(p) {
+								bad = w.ipos(ap)
+							}
+						}
+					}
+					if bad != "" {
+						r.bad("ALLINPUTS", key, w.ipos(c), "the list handed to the encoder is built by an append ("+bad+") that some iterations skip: input files are filtered out on the way and are not protected by the set")
+					} else {
+						r.ok("ALLINPUTS", key, w.ipos(c), "every iteration over the inputs appends to the list handed on")
+					}
+				}
+			}
+		}
+	}
+	r.floor("ALLINPUTS", "path lists handed to newEncoder", n, len(pkgs))
+}
+
+// ---------------------------------------------------------------------------
+// IDXLEN: an index counted from the end needs the slice to be that long
+
+const ruleIDXLENText = "no index before the start: in the Go code of package gf2p16 an index or slice bound of the form len(s) - k (k >= 1) is evaluated only where len(s) >= k is known (a dominating comparison); a bounds-check hint such as `_ = out[len(in)-1]` turns the documented no-op on empty buffers into a panic"
+
+func ruleIDXLEN(w *World, r *Report, pkgs ...string) {
+	r.rule("IDXLEN", ruleIDXLENText)
+	rangeWorld = w
+	n := 0
+	for _, fn := range w.funcsInPkgs(pkgs...) {
+		k := 0
+		for _, b := range fn.Blocks {
+			for _, in := range b.Instrs {
+				var idxs []ssa.Value
+				switch x := in.(type) {
+				case *ssa.IndexAddr:
+					if _, isSlice := x.X.Type().Underlying().(*types.Slice); isSlice {
+						idxs = append(idxs, x.Index)
+					}
+				case *ssa.Index:
+					idxs = append(idxs, x.Index)
+				case *ssa.Slice:
+					if x.Low != nil {
+						idxs = append(idxs, x.Low)
+					}
+					if x.High != nil {
+						idxs = append(idxs, x.High)
+					}
+				}
+				for _, idx := range idxs {
+					l := linOf(w, idx, 0)
+					if l.c >= 0 || len(l.coef) != 1 {
+						continue
+					}
+					var lenCall *ssa.Call
+					for a, c := range l.coef {
+						if c == 1 {
+							lenCall = isBuiltinCall(l.val[a], "len")
+						}
+					}
+					if lenCall == nil {
+						continue
+					}
+					n++
+					key := fmt.Sprintf("%s:index#%d", shortName(fn), k)
+					k++
+					rc := &rangeCtx{memo: map[ssa.Value]*ival{}, busy: map[ssa.Value]bool{}}
+					iv := rc.eval(lenCall, b)
+					need := -l.c
+					// a comparison of len() of the same slice with a constant, anywhere above
+					known := int64(0)
+					for _, cm := range w.factsAt(in) {
+						if cm.Y == nil {
+							continue
+						}
+						x, y, op := cm.X, cm.Y, cm.Op
+						if isBuiltinCall(stripAllConv(y), "len") != nil {
+							x, y, op = y, x, swapOp(op)
+						}
+						lc := isBuiltinCall(stripAllConv(x), "len")
+						k, isC := constInt(y)
+						if lc == nil || !isC || stripAllConv(lc.Call.Args[0]) != stripAllConv(lenCall.Call.Args[0]) {
+							continue
+						}
+						switch op {
+						case token.GTR:
+							if k+1 > known {
+								known = k + 1
+							}
+						case token.GEQ, token.EQL:
+							if k > known {
+								known = k
+							}
+						case token.NEQ:
+							if k == 0 && known < 1 {
+								known = 1
+							}
+						}
+					}
+					if known >= need || (iv != nil && iv.lo.IsInt64() && iv.lo.Int64() >= need) {
+						r.ok("IDXLEN", key, w.ipos(in), fmt.Sprintf("len >= %d is known here", need))
+					} else {
+						r.bad("IDXLEN", key, w.ipos(in), fmt.Sprintf("the index len(%s)%+d is evaluated where the slice is not known to have %d element(s): an empty buffer panics", describeVal(lenCall.Call.Args[0]), l.c, need))
+					}
+				}
+			}
+		}
+	}
+	r.stat("idxlen_sites", n)
+}
